@@ -59,9 +59,21 @@ def _block(b, box=None):
         vals = b["c"][0] + b["c"][1] * pts + b["c"][2] * pts ** 2
         return models.Tabular1D(points=pts, lookup_table=vals), 1, [("spectral", "um")]
     if k == "sky":
-        t = (models.Shift(-b["crpix"][0]) & models.Shift(-b["crpix"][1]) | models.Scale(b["scale"]) & models.Scale(b["scale"]) |
+        t = models.Shift(-b["crpix"][0]) & models.Shift(-b["crpix"][1])
+        if b.get("dist"):
+            # optical distortion of `dist` pixels at 10 pixels from the reference pixel: a linear fit cannot follow it to 0.25 pixel
+            q_ = b["dist"] / 100.0
+            t = t | models.Mapping((0, 1, 0, 1)) | (models.Polynomial2D(2, c1_0=1.0, c2_0=q_, c0_2=-q_) & models.Polynomial2D(2, c0_1=1.0, c1_1=q_))
+        t = (t | models.Scale(b["scale"]) & models.Scale(b["scale"]) |
              models.Pix2Sky_TAN() | models.RotateNative2Celestial(b["lon"], b["lat"], 180.0))
         return t, 2, [("lon", "deg"), ("lat", "deg")]
+    if k == "raster":
+        # a raster-scanned slit: longitude from the scan position alone, (latitude, wavelength) from the two detector axes - the two
+        # axes of the celestial frame sit in different separable groups
+        t = (models.Polynomial1D(1, c0=b["lon"], c1=b["scale"]) &
+             (models.Mapping((0, 1, 0, 1)) | (models.Polynomial2D(1, c0_0=b["lat"], c1_0=b["scale"], c0_1=b["scale"] / 8) &
+                                               models.Polynomial2D(1, c0_0=b["c"][0], c1_0=b["c"][2], c0_1=b["c"][1]))))
+        return t, 3, [("lon", "deg"), ("lat", "deg"), ("spectral", "um")]
     if k in ("spec", "time", "gen"):
         t = models.Polynomial1D(2, c0=b["c"][0], c1=b["c"][1], c2=b["c"][2])
         return t, 1, [({"spec": "spectral", "time": "temporal", "gen": "generic"}[k], {"spec": "um", "time": "s", "gen": "m"}[k])]
@@ -245,7 +257,7 @@ def impl(case):
         sep = np.degrees(2 * np.arcsin(np.sqrt(np.clip(np.sin((b2 - b1) / 2) ** 2 + np.cos(b1) * np.cos(b2) * np.sin((l2 - l1) / 2) ** 2, 0, 1))))
         j = int(np.nanargmax(sep))
         # to_fits fits the linear/SIP part about the box centre to within max_pix_error = 0.25 pixel (its documented default)
-        tol = 0.5 * max(bl["scale"] for bl in case["blocks"] if bl["kind"] in ("sky", "slit"))
+        tol = max((0.5 + 4.0 * bl.get("dist", 0.0)) * bl["scale"] for bl in case["blocks"] if bl["kind"] in ("sky", "slit"))
         if not (sep[j] <= tol):
             worst.append({"axis": lon_ax, "pix": pts[:, j].tolist(), "reader": [float(rv[lon_ax][j]), float(rv[lat_ax][j])],
                           "gwcs": [float(gv[lon_ax][j]), float(gv[lat_ax][j])], "nbad": int((~(sep <= tol)).sum()), "n": int(sep.size)})
@@ -426,6 +438,8 @@ def compare(case, res, resp):
     if m["groups"] != sorted(res["components"]) and sorted(m["groups"]) != sorted(res["components"]):
         return "separable groups: model %s, connected components %s" % (m["groups"], res["components"])
     c = res["cards"]
+    if "tab_axes" not in res:
+        return None        # the standard reader refused the header: the oracle reports that; nothing further to compare
     for j, a in enumerate(m["axes"]):
         if a["npix"] != res["expect_npix"][j]:
             return "pixel axis %d: model node count %d, harness %d" % (j, a["npix"], res["expect_npix"][j])
@@ -479,20 +493,22 @@ def gen(rng, tier):
                 if rng.random() < 0.15:
                     cands = ["collapse"]
             if target - npx >= 3 and rng.random() < 0.4:
-                cands = ["chain"]
+                cands = ["chain", "chain", "raster"]
             k = rng.choice(cands)
-            if k in ("sky", "slit") and any(b["kind"] in ("sky", "slit") for b in blocks):
+            if k in ("sky", "slit", "raster") and any(b["kind"] in ("sky", "slit", "raster") for b in blocks):
                 continue
             if k in ("fan2", "fan3") and any(b["kind"] in ("fan2", "fan3") for b in blocks):
                 continue
             b = {"kind": k}
-            if k in ("sky", "slit"):
+            if k in ("sky", "slit", "raster"):
+                if k == "sky" and rng.random() < 0.3:
+                    b["dist"] = rng.choice([1.0, 2.0])
                 b.update(crpix=[float(rng.randint(2, 8)), float(rng.randint(2, 8))], scale=rng.choice([0.01, 0.05]), lon=float(rng.randint(40, 300)),
                          lat=float(rng.randint(-60, 60)))
             b["c"] = [float(rng.randint(1, 9)), rng.choice([0.5, 0.25, 1.5]), rng.choice([0.03125, 0.0625, 0.125])]
             blocks.append(b)
-            npx += 3 if k == "chain" else 2 if k in ("sky", "pair", "slit", "collapse") else 1
-        nw = sum({"sky": 2, "pair": 2, "slit": 3, "fan2": 2, "fan3": 3, "chain": 3}.get(b["kind"], 1) for b in blocks)
+            npx += 3 if k in ("chain", "raster") else 2 if k in ("sky", "pair", "slit", "collapse") else 1
+        nw = sum({"sky": 2, "pair": 2, "slit": 3, "fan2": 2, "fan3": 3, "chain": 3, "raster": 3}.get(b["kind"], 1) for b in blocks)
         case = {"blocks": blocks, "method": rng.choice(["tab", "mixed", "mixed"])}
         crossed = it % 8 == 3
         if crossed:
@@ -505,6 +521,18 @@ def gen(rng, tier):
             blocks = [sky] + one if rng.random() < 0.5 else one + [sky]
             npx, nw = 4, 4
             case = {"blocks": blocks, "method": "mixed", "perm": [2, 3, 0, 1] if rng.random() < 0.7 else [2, 3, 1, 0]}
+        if it % 8 in (1, 6):
+            skyb = {"kind": "sky", "crpix": [float(rng.randint(2, 8)), float(rng.randint(2, 8))], "scale": rng.choice([0.01, 0.05]),
+                    "lon": float(rng.randint(40, 300)), "lat": float(rng.randint(-60, 60)), "c": [1.0, 0.5, 0.125]}
+            cc = [float(rng.randint(1, 9)), rng.choice([0.5, 0.25, 1.5]), rng.choice([0.03125, 0.0625, 0.125])]
+            if it % 8 == 1:
+                # the two celestial axes in different separable groups (raster-scanned slit), exported with to_fits
+                blocks, npx, nw = [dict(skyb, kind="raster", c=cc)], 3, 3
+            else:
+                # a distorted celestial pair next to a spectral axis, default arguments
+                blocks, npx, nw = [dict(skyb, dist=rng.choice([1.0, 2.0])), {"kind": "spec", "c": cc}], 3, 3
+            case = {"blocks": blocks, "method": "mixed"}
+            crossed = True      # (keeps the world axes in their natural order)
         if nw < npx:
             case.update(expect="runtimeErr", why="more pixel than world axes")
         # permutation of world axes: celestial lon/lat keep their relative order
@@ -519,8 +547,10 @@ def gen(rng, tier):
             bb.append([lo, hi])
         case["bbox"] = bb
         case["sampling"] = rng.choice([1, 1, 0.5, 2, 0.7, 3]) if rng.random() < 0.5 else [rng.choice([1, 0.5, 2, 0.7, 3, 1.5]) for _ in range(npx)]
-        if rng.random() < 0.2:
+        if rng.random() < 0.2 or (it % 8 == 5 and npx > 1):
             case["bbox_arg"] = [[lo + 1.0, hi - 0.5] for lo, hi in bb]
+            if it % 8 == 5 and npx > 1:
+                case["method"] = "tab"      # (a box passed to to_fits_tab, on a WCS of several pixel axes, every 8th case)
         case["seed"] = rng.randint(1, 10**6)
         r = rng.random() if "expect" not in case else 1.0
         if r < 0.06:
